@@ -313,12 +313,13 @@ def proc_functional(
                     raise error.UnsuspectedHangeulOutOfRangeError(
                         metadata, f"길이 {len(seq)}의 객체의 {idx}번째 요소를 요청했습니다."
                     ) from None
-            value = seq[idx:][:1]
-            if not value:
+            if not -len(seq) <= idx < len(seq):
                 raise error.UnsuspectedHangeulOutOfRangeError(
                     metadata, f"길이 {len(seq)}의 객체의 {idx}번째 요소를 요청했습니다."
                 ) from None
-            return utils.guessed_wrap(value)
+            if idx < 0:
+                idx += len(seq)
+            return utils.guessed_wrap(seq[idx : idx + 1])
 
         return _proc_seq
 
